@@ -40,17 +40,42 @@ theorem nudBody_mono {pe pe' : Nat → List Tok → Option (Expr × List Tok)}
     | exact map_mono (hm _ _)
     | exact bind_mono (hm _ _) (fun _ hx => hx)
 
-theorem ledBody_mono {pe pe' : Nat → List Tok → Option (Expr × List Tok)}
-    {pa pa' : List Tok → Option (Bool × Ty × List Tok)}
+theorem argTail_mono {pas pas' : List Tok → Option (Expr × List Tok)}
+    (hs : ∀ ts r, pas ts = some r → pas' ts = some r) (label : String) (e : Expr) (ts : List Tok) (r : Expr × List Tok) :
+    argTail pas label e ts = some r → argTail pas' label e ts = some r := by
+  unfold argTail
+  split
+  · exact map_mono (hs _)
+  · exact id
+
+theorem argsBody_mono {pe pe' : Nat → List Tok → Option (Expr × List Tok)}
+    {pas pas' : List Tok → Option (Expr × List Tok)}
     (hm : ∀ a ts r, pe a ts = some r → pe' a ts = some r)
-    (ha : ∀ ts r, pa ts = some r → pa' ts = some r) (left : Expr) (ts : List Tok) (r : Expr × List Tok) :
-    ledBody pe pa left ts = some r → ledBody pe' pa' left ts = some r := by
+    (hs : ∀ ts r, pas ts = some r → pas' ts = some r) (ts : List Tok) (r : Expr × List Tok) :
+    argsBody pe pas ts = some r → argsBody pe' pas' ts = some r := by
+  unfold argsBody
+  split
+  · exact id
+  · refine bind_mono (hm _ _) (fun x => ?_)
+    repeat' split
+    all_goals first
+      | exact id
+      | exact argTail_mono hs _ _ _ _
+      | exact bind_mono (hm _ _) (fun y => argTail_mono hs _ _ _ _)
+
+theorem ledBody_mono {pe pe' : Nat → List Tok → Option (Expr × List Tok)}
+    {pa pa' : List Tok → Option (Bool × Ty × List Tok)} {pas pas' : List Tok → Option (Expr × List Tok)}
+    (hm : ∀ a ts r, pe a ts = some r → pe' a ts = some r)
+    (ha : ∀ ts r, pa ts = some r → pa' ts = some r)
+    (hs : ∀ ts r, pas ts = some r → pas' ts = some r) (left : Expr) (ts : List Tok) (r : Expr × List Tok) :
+    ledBody pe pa pas left ts = some r → ledBody pe' pa' pas' left ts = some r := by
   unfold ledBody
   repeat' split
   all_goals first
     | exact id
     | exact map_mono (hm _ _)
     | exact map_mono (ha _)
+    | exact map_mono (hs _)
     | exact bind_mono (hm _ _) (fun _ hx => hx)
     | exact bind_mono (hm _ _) (fun _ => bind_mono (fun _ hx => hx) (fun _ => map_mono (hm _ _)))
 
@@ -104,15 +129,16 @@ theorem expr_mono_step : ∀ f,
     (∀ rbp ts r, parseExpr f rbp ts = some r → parseExpr (f + 1) rbp ts = some r) ∧
     (∀ ts r, nud f ts = some r → nud (f + 1) ts = some r) ∧
     (∀ rbp l ts r, loop f rbp l ts = some r → loop (f + 1) rbp l ts = some r) ∧
-    (∀ l ts r, led f l ts = some r → led (f + 1) l ts = some r) := by
+    (∀ l ts r, led f l ts = some r → led (f + 1) l ts = some r) ∧
+    (∀ ts r, parseArgs f ts = some r → parseArgs (f + 1) ts = some r) := by
   intro f
   induction f with
   | zero =>
     exact ⟨fun _ _ _ h => by simp [parseExpr] at h, fun _ _ h => by simp [nud] at h,
-      fun _ _ _ _ h => by simp [loop] at h, fun _ _ _ h => by simp [led] at h⟩
+      fun _ _ _ _ h => by simp [loop] at h, fun _ _ _ h => by simp [led] at h, fun _ _ h => by simp [parseArgs] at h⟩
   | succ f ih =>
-    obtain ⟨ihE, ihN, ihL, ihD⟩ := ih
-    refine ⟨fun rbp ts r h => ?_, fun ts r h => ?_, fun rbp l ts r h => ?_, fun l ts r h => ?_⟩
+    obtain ⟨ihE, ihN, ihL, ihD, ihA⟩ := ih
+    refine ⟨fun rbp ts r h => ?_, fun ts r h => ?_, fun rbp l ts r h => ?_, fun l ts r h => ?_, fun ts r h => ?_⟩
     · rw [parseExpr] at h ⊢
       cases hn : nud f ts with
       | none => simp [hn] at h
@@ -134,7 +160,9 @@ theorem expr_mono_step : ∀ f,
           simp only [hd] at h ⊢
           exact ihL _ _ _ _ h
     · rw [led] at h ⊢
-      exact ledBody_mono ihE (parseAnn_mono_step f) _ _ _ h
+      exact ledBody_mono ihE (parseAnn_mono_step f) ihA _ _ _ h
+    · rw [parseArgs] at h ⊢
+      exact argsBody_mono ihE ihA _ _ h
 
 theorem parseExpr_mono {f f' : Nat} (hf : f ≤ f') {rbp ts r} (h : parseExpr f rbp ts = some r) :
     parseExpr f' rbp ts = some r := by
@@ -147,6 +175,12 @@ theorem loop_mono {f f' : Nat} (hf : f ≤ f') {rbp l ts r} (h : loop f rbp l ts
   induction hf with
   | refl => exact h
   | step _ ih => exact (expr_mono_step _).2.2.1 _ _ _ _ ih
+
+theorem parseArgs_mono {f f' : Nat} (hf : f ≤ f') {ts r} (h : parseArgs f ts = some r) :
+    parseArgs f' ts = some r := by
+  induction hf with
+  | refl => exact h
+  | step _ ih => exact (expr_mono_step _).2.2.2.2 _ _ ih
 
 theorem parseTy_mono {f f' : Nat} (hf : f ≤ f') {rbp ts r} (h : parseTy f rbp ts = some r) :
     parseTy f' rbp ts = some r := by
